@@ -23,6 +23,9 @@ P = {
  "C15": ("exploration", "rapid stateful (model-based) PBT: one list operation per step on five arrays, results and all contents printed after every step, differential against a reference list model",
    "6k (120k thorough) histories of up to 20 (60) operations - push, pop, popfirst, index read/write with every index class, length, contains, sort, and method calls nested in each other's arguments - on arrays held by variables, by the document and by an object; after every step the result and every array with its length are compared with refjq's ideal list, and the final document with the reference root. Exploration (stateful model-based).",
    "Trusted: refjq's list model (DESIGN.md 4.8, section 3.6 for contains, string form for sort). Arrays are reached through the name or path that holds them, as the property states; aliasing is C09's subject (KF-array-alias excluded dynamically).", "5/C15, 4.8"),
+ "C19": ("exploration", "rapid PBT over match expressions (patterns aimed to hit or miss the subject); differential against a reference model of case selection, binding and evaluation order",
+   "15k (300k thorough) programs with 1-3 match expressions: subjects of every kind, 1-5 cases x 1-3 alternatives (literals, identifiers, nested array patterns, deliberate misses), expression and block bodies with return/next/continue, poisoned later patterns that fault if evaluated, match in every syntactic use. Printed values and side-effect traces must equal refjq's. Exploration (model-based differential).",
+   "Trusted: refjq's match semantics (DESIGN.md 4.5). Negative-number, regex and other expression patterns are unspecified and not generated; assignment to a bound name is not generated.", "5/C19, 4.5"),
  "C05": ("exploration", "exhaustive small-scope enumeration + rapid PBT, differential against a reference model of the section-3 operator tables",
    "Every operator x every ordered pair of 40 representative operands x 3-4 supply modes is enumerated completely (about 66k programs), then 20k (quick) / 150k (thorough) random operand pairs; each result is compared in kind, value and error class with the section-3 tables. Exploration, exhaustive over the stated representative grid: it decides the table on the grid, not on every double.",
    "Trusted: refjq's transcription of DESIGN.md section 3; Go's regexp for RE2; exotic numeric strings, non-finite results and |x| >= 2^53 for % are unspecified and discarded (counted).", "5/C05, 3"),
